@@ -7,6 +7,36 @@ HERE = os.path.dirname(os.path.abspath(__file__))
 
 # id -> (technique, level text, level note, design ref)
 CLAIMED = {
+    "C06": (
+        "static dataflow/dominance rules: lost-update (copy-of-receiver) analysis, per-constellation field separation, type-dispatch table extraction, no-store-on-error paths, strict rollover comparison, constant evaluation",
+        "Decides structural necessary conditions of the week bookkeeping (state persistence, constellation separation, dispatch tables over the whole type domain, no state write on error paths, strict rollover test with +7 days, offset/limit constants). Does not decide numerical equality of reported times.",
+        "time.Time arithmetic and calendar trusted; oracle constants from the property statement",
+        "DESIGN.md 4.6",
+    ),
+    "C09": (
+        "static concurrency-structure analysis: channel close-site ownership, single-sender, fan-out path rule, completion-on-close dominance, termination chain, go-operand confinement, Kahn-determinism effect check",
+        "Decides the ownership/ordering/completion/confinement discipline that makes the pipeline schedule-independent (all schedules, all chunkings): one closer per channel, one sender per channel, synchronous in-order fan-out of the received value to every non-nil consumer, return only on closed channel, no shared mutable state. Does not execute schedules.",
+        "Go channel semantics and memory model trusted; consumers supplied by callers are outside",
+        "DESIGN.md 4.9",
+    ),
+    "C11": (
+        "static happens-before (join) analysis on SSA CFG: signal-after-last-write, wait-on-every-return-path, close-before-wait, WaitGroup.Add-before-go; consumer-loop path rules",
+        "Decides whether a close->wait join exists between every writer goroutine and every return of the entry point: with it no schedule can lose output, without it some schedule does. All schedules and writer latencies are covered by the happens-before argument, not sampled.",
+        "writer.Write is synchronous (true of os.Stdout, files, bytes.Buffer); Go memory model",
+        "DESIGN.md 4.11",
+    ),
+    "C16": (
+        "static path rules (read->write->send exactly once, in order, same buffer and n), private-copy dataflow, consumer-loop rule, join analysis",
+        "Decides the tee structure of rtcmlogger on every CFG path: each block read is written to stdout and sent as a fresh copy to the recorder exactly once, the recorder writes every block and is joined before start returns. Does not decide dailylogger's file handling.",
+        "os.File Read/Write contracts; dailylogger is a dependency",
+        "DESIGN.md 4.16",
+    ),
+    "C18": (
+        "static lock-discipline analysis (every field access dominated by the queue's lock, writes under the write lock, helpers called with the lock held), encapsulation check, structural FIFO rules (monotone key, evict-before-insert with >=, ascending sorted snapshot)",
+        "Decides for all operation sequences and interleavings the structural conditions of a bounded FIFO under a readers-writer lock; linearizability follows from atomic critical sections and is not enumerated.",
+        "sync.RWMutex, sort.Ints and map semantics trusted",
+        "DESIGN.md 4.18",
+    ),
     "C20": (
         "static table extraction: set-wise abstract interpretation of every classifier over the complete 4098-value type domain, compared with sibling tables and the oracle",
         "All classification tables are extracted from the SSA of the current source and compared over the whole domain {-2,-1,0..4095}; exhaustive over message types. Decides table agreement, not that the reached decoders behave.",
